@@ -14,22 +14,23 @@ var _ maps.BucketSortedMapItem = (*txListForSender)(nil)
 
 // txListForSender represents a sorted list of transactions of a particular sender
 type txListForSender struct {
-	copyDetectedGap     bool
-	lastComputedScore   atomic.Uint32
-	accountNonceKnown   atomic.Flag
-	sweepable           atomic.Flag
-	copyPreviousNonce   uint64
-	sender              string
-	items               *list.List
-	copyBatchIndex      *list.Element
-	constraints         *senderConstraints
-	scoreChunk          *maps.MapChunk
-	accountNonce        atomic.Uint64
-	totalBytes          atomic.Counter
-	totalGas            atomic.Counter
-	totalFeeScore       atomic.Counter
-	numFailedSelections atomic.Counter
-	onScoreChange       scoreChangeCallback
+	copyDetectedGap      bool
+	lastComputedScore    atomic.Uint32
+	accountNonceKnown    atomic.Flag
+	sweepable            atomic.Flag
+	copyPreviousNonce    uint64
+	copyHasPreviousNonce bool
+	sender               string
+	items                *list.List
+	copyBatchIndex       *list.Element
+	constraints          *senderConstraints
+	scoreChunk           *maps.MapChunk
+	accountNonce         atomic.Uint64
+	totalBytes           atomic.Counter
+	totalGas             atomic.Counter
+	totalFeeScore        atomic.Counter
+	numFailedSelections  atomic.Counter
+	onScoreChange        scoreChangeCallback
 
 	scoreChunkMutex sync.RWMutex
 	mutex           sync.RWMutex
@@ -220,6 +221,7 @@ func (listForSender *txListForSender) selectBatchTo(isFirstBatch bool, destinati
 
 		listForSender.copyBatchIndex = listForSender.items.Front()
 		listForSender.copyPreviousNonce = 0
+		listForSender.copyHasPreviousNonce = false
 		listForSender.copyDetectedGap = hasInitialGap
 
 		journal.isFirstBatch = true
@@ -230,6 +232,7 @@ func (listForSender *txListForSender) selectBatchTo(isFirstBatch bool, destinati
 	availableSpace := len(destination)
 	detectedGap := listForSender.copyDetectedGap
 	previousNonce := listForSender.copyPreviousNonce
+	hasPreviousNonce := listForSender.copyHasPreviousNonce
 
 	// If a nonce gap is detected, no transaction is returned in this read.
 	// There is an exception though: if this is the first read operation for the sender in the current selection process and the sender is in the grace period,
@@ -252,7 +255,7 @@ func (listForSender *txListForSender) selectBatchTo(isFirstBatch bool, destinati
 		value := element.Value.(*WrappedTransaction)
 		txNonce := value.Tx.GetNonce()
 
-		if previousNonce > 0 && txNonce > previousNonce+1 {
+		if hasPreviousNonce && txNonce > previousNonce+1 {
 			listForSender.copyDetectedGap = true
 			journal.hasMiddleGap = true
 			break
@@ -261,10 +264,12 @@ func (listForSender *txListForSender) selectBatchTo(isFirstBatch bool, destinati
 		destination[copied] = value
 		element = element.Next()
 		previousNonce = txNonce
+		hasPreviousNonce = true
 	}
 
 	listForSender.copyBatchIndex = element
 	listForSender.copyPreviousNonce = previousNonce
+	listForSender.copyHasPreviousNonce = hasPreviousNonce
 	journal.copied = copied
 	return journal
 }
